@@ -416,7 +416,7 @@ func (h *Headers) marshal() (cbor.RawMessage, cbor.RawMessage, error) {
 // RawProtected is returned if it is not set to nil.
 func (h *Headers) MarshalProtected() ([]byte, error) {
 	if len(h.RawProtected) > 0 {
-		return h.RawProtected, nil
+		return append([]byte(nil), h.RawProtected...), nil
 	}
 	return encMode.Marshal(h.Protected)
 }
@@ -425,7 +425,7 @@ func (h *Headers) MarshalProtected() ([]byte, error) {
 // RawUnprotected is returned if it is not set to nil.
 func (h *Headers) MarshalUnprotected() ([]byte, error) {
 	if len(h.RawUnprotected) > 0 {
-		return h.RawUnprotected, nil
+		return append([]byte(nil), h.RawUnprotected...), nil
 	}
 	return encMode.Marshal(h.Unprotected)
 }
